@@ -76,6 +76,7 @@ type RProg struct {
 	Tail   int      `json:"tail"` // extra NextReader calls at the end
 	Raw    string   `json:"raw"`  // hex: raw bytes sent verbatim instead of frames (C07 garbage)
 	JSON   bool     `json:"json"` // data messages carry JSON documents (ReadJSON programs)
+	NoAlloc bool    `json:"noalloc"` // no allocation monitor (concurrent groups)
 }
 
 // Ev is a generic trace event.
@@ -684,7 +685,7 @@ func (r *readerRun) exec(sc *xport.ScriptConn, outp *[]Ev) (out []Ev) {
 	ncalls := 0
 	measure := func(f func()) {
 		ncalls++
-		if ncalls > 64 {
+		if ncalls > 64 || p.NoAlloc {
 			f()
 			return
 		}
